@@ -4,6 +4,7 @@ import Driver.Common
 import GivaroModel.Model.Primes
 import GivaroModel.Model.PrimesPower
 import GivaroModel.Model.PrimesFactor
+import GivaroModel.Model.PrimesMisc
 import GivaroModel.Spec.PrimesSpec
 -- @driver-mode primes Driver.Primes.primesLine
 namespace Driver.Primes
@@ -111,6 +112,95 @@ def primesLine (line : String) : String :=
         let m := set pfR n
         let modelOk := m == some (fs, complete)
         primesVerdict line specOk modelOk (match m with | some (l, b) => s!"{b} {showPairs l}" | none => "fuel")
+      | "lenstra", [n, _b1, _curves], [g] =>
+        -- Lenstra(gen, g, n, B1, curves): guards modelled, the curves are an oracle replayed from the implementation; contract: the
+        -- failure value -1, or a divisor of n that is non-trivial when n > 1 is composite
+        let m := lenstra ispD (fun _ => g) n
+        let specOk := if n ≤ 1 then g == n else (g == -1 && !primeI n && n % 2 != 0 && n % 3 != 0) || chkFactor n g
+        primesVerdict line specOk (m == g) (hexInt m)
+      | "pollard", [n, loops], [g] =>
+        let m := pollard ispD (fun _ => g) n
+        let specOk := if n < 3 || primeI n then g == n
+          else if loops == 0 then chkFactor n g
+          else decide (g ≠ 0) && n % g == 0 && decide (1 ≤ g)          -- bounded: any positive divisor, 1 = gave up
+        primesVerdict line specOk (m == g) (hexInt m)
+      | "factorL", [n], [f] =>
+        let m := factorLen ispD (fun _ => f) n
+        primesVerdict line (chkFactor n f) (m == f) (hexInt m)
+      | "setL", [n], c :: k :: rest =>
+        let fs := pairs rest
+        if fs.length != k.toNat || rest.length != 2 * k.toNat then "BAD setL | " ++ line else
+        if n == 0 then (if fs.isEmpty then "OK" else primesVerdict line false true "-") else
+        let m := set (replayPf fs) n
+        primesVerdict line (chkFactorisation n fs && c == 1) (m == some (fs, c != 0))
+          (match m with | some (l, b) => s!"{b} {showPairs l}" | none => "fuel")
+      | "fermat", [n], [f] =>
+        if n < 0 || n ≥ 32 then "PRE" else
+        let m := fermat n.toNat
+        primesVerdict line (f == ((2 ^ (2 ^ n.toNat) + 1 : Nat) : Int)) ((m : Int) == f) (hexNat m)
+      | "pepin", [n], [b] =>
+        if n < 0 || n ≥ 32 then "PRE" else
+        -- F_0 … F_4 are prime, F_5 … F_32 are known to be composite; `pepin_iff_prime` makes the model the primality of F_n
+        let m := pepin n.toNat
+        primesVerdict line ((b != 0) == decide (n ≤ 4)) (m == (b != 0)) (toString m)
+      | "isprimer", [n, _r], [v] =>
+        if n ≥ (mrLimit : Int) then "PRE" else
+        let m := isprime oracleD n
+        let modelOk := match m with
+          | some mv => if n < 65536 then mv == v else (mv != 0) == (v != 0)
+          | none => false
+        primesVerdict line ((v != 0) == primeI n) modelOk (showOpt m)
+      | "localprime", [n, _r], [v] =>
+        if n ≥ (mrLimit : Int) || n < 2 then "PRE" else
+        primesVerdict line ((v != 0) == primeI n) ((oracleD n != 0) == (v != 0)) (hexInt (oracleD n))
+      | "tabule", [n], [v] =>
+        if n < 0 || n ≥ 32768 then "PRE" else
+        let m := isprime_Tabule n
+        primesVerdict line (v == (if primeI n then 1 else 0)) (m == some v) (showOpt m)
+      | "tabule2", [n], [v] =>
+        if n < 32768 || n ≥ 65536 then "PRE" else
+        let m := isprime_Tabule2 n
+        primesVerdict line (v == (if primeI n then 1 else 0)) (m == some v) (showOpt m)
+      | "miller", [n], [v] =>
+        -- Monte Carlo: "returns 0 : n composite" -- a prime must pass whatever base is drawn (the base is not observable)
+        if n ≥ (mrLimit : Int) then "PRE" else
+        let specOk := if n < 2 then v == 0 else if n ≤ 3 then v == 1 else (v == 0 || v == 1) && (!primeI n || v == 1)
+        primesVerdict line specOk true "-"
+      | "lehmann", [n], [r] =>
+        -- test_Lehmann: a^((n-1)/2) mod n; "n-1 / 1 : n prime w.p. 1/2; else n composite": for a prime only 1 and n-1 may come out
+        if n ≥ (mrLimit : Int) || n < 2 then "PRE" else
+        let specOk := decide (0 ≤ r ∧ r < n) && (!primeI n || n == 2 || r == 1 || r == n - 1)
+        primesVerdict line specOk true "-"
+      | "lehmannb", [n], [v] =>
+        let specOk := if n < 2 then v == 0 else if n ≤ 3 then v == 1 else (v == 0 || v == 1)
+        primesVerdict line specOk true "-"
+      | "write", [n], neg :: k :: rest =>
+        -- write(o, Lf, n) / write(o, n): text parsed strictly by the harness into (sign, p^e list), Lf, and the second text
+        let fs := pairs (rest.take (2 * k.toNat))
+        match rest.drop (2 * k.toNat) with
+        | m1 :: rest2 =>
+          let lf := rest2.take m1.toNat
+          match rest2.drop m1.toNat with
+          | neg2 :: k2 :: rest3 =>
+            let fs2 := pairs rest3
+            if fs.length != k.toNat || fs2.length != k2.toNat then "BAD write | " ++ line else
+            let signOk := (neg != 0) == decide (n < 0) && (neg2 != 0) == decide (n < 0)
+            if n.natAbs ≤ 1 then
+              primesVerdict line (signOk && fs == [(n.natAbs, 1)] && fs2 == [(n.natAbs, 1)] && lf == [(n.natAbs : Int)]) true "-"
+            else
+              let specOk := signOk && chkFactorisation n fs && chkFactorisation n fs2 && lf == fs.map (fun pe => (pe.1 : Int))
+              let m := set (replayPf fs) n
+              primesVerdict line specOk (m == some (fs, true)) (match m with | some (l, b) => s!"{b} {showPairs l}" | none => "fuel")
+          | _ => "BAD write | " ++ line
+        | _ => "BAD write | " ++ line
+      | "erat", [n], k :: rest =>
+        -- Erathostene(Lf, p): the distinct prime factors of |p| in increasing order (certificate; the sieve is not modelled)
+        let ps := rest.map Int.toNat
+        if ps.length != k.toNat then "BAD erat | " ++ line else
+        if n == 0 then primesVerdict line ps.isEmpty true "-" else
+        let cof := ps.foldl (fun m p => if p < 2 then m else stripAll p (Nat.log2 m + 1) m) n.natAbs
+        let sorted := (ps.zip (ps.drop 1)).all (fun ab => decide (ab.1 < ab.2))
+        primesVerdict line (ps.all primeN && sorted && ps.all (fun p => n.natAbs % p == 0) && cof == 1) true "-"
       | "divisors", [n], k :: rest =>
         let fl := rest.take (2 * k.toNat)
         let fs := pairs fl
